@@ -2,17 +2,17 @@
    constants (pi = PI, sq2pi = sqrt(2 PI), cispi = cis_true): the interpolation kernel never
    vanishes on the frequencies the code evaluates it at. *)
 From Coq Require Import ZArith Reals Lra Lia List Bool Arith.
-From Verif Require Import Base.Num Lib.Axis C18.Model C18.ProofsGrid C18.ProofsDFT C18.ProofsCx C18.ProofsFT.
+From Verif Require Import Base.Num Lib.Axis Gen.FtFormulas C18.Model C18.ProofsGrid C18.ProofsDFT C18.ProofsCx C18.ProofsFT.
 Import ListNotations.
 Local Open Scope R_scope.
 
 Lemma freq_full_formula n sh k : (2 <= n)%nat ->
   freq n n sh k = (INR k - (if sh then INR n / 2 else (INR n - 1) / 2)) / INR n.
 Proof.
-  intros Hn. unfold freq, fmin_of, fmax_of. rewrite Nat.ltb_irrefl, nhalf_R.
-  rewrite linspace_R by exact Hn. rewrite !of_nat_INR. rewrite minus_INR by lia. simpl (INR 1).
+  intros Hn. unfold freq, fmin_of, fmax_of, pp_fmin, pp_fmax. rewrite Nat.ltb_irrefl.
+  rewrite linspace_R by exact Hn. rewrite minus_INR by lia. simpl (INR 1).
   assert (Hn2 : 2 <= INR n) by (change 2 with (INR 2); apply le_INR; exact Hn).
-  numR. destruct sh; field; lra.
+  genR. destruct sh; field; lra.
 Qed.
 
 Lemma freq_range n sh k : (2 <= n)%nat -> (k < n)%nat -> -1 / 2 <= freq n n sh k <= 1 / 2.
@@ -56,7 +56,7 @@ Proof. apply sqrt_lt_R0. assert (Hpi := PI_RGT_0). lra. Qed.
 Lemma kernel_true_nz s n sh k : s <> 0 -> (2 <= n)%nat -> (k < n)%nat ->
   kernel PI (sqrt (2 * PI)) cis_true s (freq n n sh k) <> 0.
 Proof.
-  intros Hs Hn Hk. unfold kernel. numR.
+  intros Hs Hn Hk. unfold kernel, pp_kernel. numR.
   pose proof (sinc_true_nz _ (freq_range n sh k Hn Hk)) as Hsn.
   pose proof sqrt_2pi_pos as Hq.
   unfold Rdiv. repeat apply Rmult_integral_contrapositive_currified; try assumption.
@@ -83,6 +83,8 @@ Theorem dftn_roundtrip_true (shape axes : list nat) (sg : R) (x : list Cx) :
   (forall ax, In ax axes -> (ax < length shape)%nat) -> length x = prodn shape ->
   dft_inverse cis_true (- sg) false shape axes (dft_forward cis_true sg false shape axes x) = x.
 Proof.
-  intros Hs Hax Hx. unfold dft_inverse, dft_forward.
+  intros Hs Hax Hx.
+  rewrite (dft_forward_unfold cis_true) by exact Hs.
+  rewrite (dft_inverse_unfold cis_true) by (apply is_sign_opp; exact Hs).
   apply (idftn_dftn cis_true cis_true_add cis_true_0 cis_true_2 cis_true_prim); assumption.
 Qed.
